@@ -300,7 +300,50 @@ func oracleC02(scn crashScenario, rec *crashRec) mc.Result {
 			}
 		}
 	}
+	// transactional mode: a stored position (and hence a resume point) must not lie strictly
+	// inside a source transaction - it would cover the MULTI bracket without its effect
+	if scn.Cfg.Txn {
+		for _, c := range rec.Cp {
+			if g, sym := insideGroup(scn, rec.Items, c.Value); g != 0 {
+				return mc.Violation("the stored resume position covers a transaction bracket the target has not absorbed (it lies inside a source MULTI..EXEC)", fmt.Sprintf("C02:cp-inside-txn:%s:%s", cls, sym),
+					map[string]interface{}{"position": c.Value, "write": c, "history": rec.describe()})
+			}
+		}
+	}
 	return mc.OK(rec.obs(), len(biz) > 0 && rec.crashes() > 0, rec.Events)
+}
+
+// insideGroup reports the source transaction group (and its symbol) that strictly
+// contains the absolute offset off: MULTI consumed, EXEC not yet.
+func insideGroup(scn crashScenario, items []sItem, off int64) (int, string) {
+	rel := off - aofS0
+	type span struct {
+		multiEnd, execEnd int64
+		sym               string
+	}
+	spans := map[int]*span{}
+	for _, it := range items {
+		if it.Group == 0 {
+			continue
+		}
+		sp := spans[it.Group]
+		if sp == nil {
+			sp = &span{multiEnd: -1, sym: scn.Syms[it.Sym]}
+			spans[it.Group] = sp
+		}
+		if it.name() == "multi" && sp.multiEnd < 0 {
+			sp.multiEnd = it.End
+		}
+		if it.name() == "exec" {
+			sp.execEnd = it.End
+		}
+	}
+	for g, sp := range spans {
+		if sp.multiEnd >= 0 && rel >= sp.multiEnd && rel < sp.execEnd {
+			return g, sp.sym
+		}
+	}
+	return 0, ""
 }
 
 func cpCovers(scn crashScenario, rec *crashRec, exp []expCmd, v int64, high int, cls string) *mc.Result {
